@@ -6,6 +6,8 @@ use crate::{
     Result,
 };
 
+use rustzx_z80::Z80Bus;
+
 const SNA_HEADER_SIZE: usize = 27;
 const SNA_128K_SECONDARY_HEADER_SIZE: usize = 4;
 const SNA_48K_SIZE: usize = 49179;
@@ -173,16 +175,28 @@ where
 struct ScopedSnapshotState<'a, H: Host> {
     pub emulator: &'a mut Emulator<H>,
     pub is_48k: bool,
+    // Memory below SP which is temporarily overwritten with PC (48K only)
+    saved_stack_bytes: [(u16, u8); 2],
 }
 
 impl<'a, H: Host> ScopedSnapshotState<'a, H> {
     fn enter(emulator: &'a mut Emulator<H>) -> Self {
         let is_48k = emulator.settings.machine == ZXMachine::Sinclair48K;
+        let mut saved_stack_bytes = [(0, 0); 2];
         if is_48k {
+            let sp = emulator.cpu.regs.get_sp();
+            for (idx, saved) in saved_stack_bytes.iter_mut().enumerate() {
+                let addr = sp.wrapping_sub(idx as u16 + 1);
+                *saved = (addr, emulator.controller.memory.read(addr));
+            }
             emulator.cpu.push_pc_to_stack(&mut emulator.controller);
         }
 
-        Self { emulator, is_48k }
+        Self {
+            emulator,
+            is_48k,
+            saved_stack_bytes,
+        }
     }
 }
 
@@ -192,6 +206,10 @@ impl<'a, H: Host> Drop for ScopedSnapshotState<'a, H> {
             self.emulator
                 .cpu
                 .pop_pc_from_stack(&mut self.emulator.controller);
+            // Running machine should not notice that snapshot was taken
+            for (addr, value) in self.saved_stack_bytes {
+                self.emulator.controller.write_internal(addr, value);
+            }
         }
     }
 }
@@ -202,7 +220,9 @@ where
     R: DataRecorder,
 {
     let state = ScopedSnapshotState::enter(emulator);
-    let ScopedSnapshotState { emulator, is_48k } = &state;
+    let ScopedSnapshotState {
+        emulator, is_48k, ..
+    } = &state;
 
     let mut header = [0u8; SNA_HEADER_SIZE];
     // interrupt register
